@@ -22,6 +22,7 @@ type Aux struct {
 	methods       map[string]*slip.Method
 	defaultKey    string
 	defaultCaller slip.Caller
+	classGen      uint64 // slip.ClassGeneration() the cache was built for
 	moo           sync.Mutex
 }
 
@@ -64,6 +65,14 @@ func (aux *Aux) Call(gf slip.Object, s *slip.Scope, args slip.List, depth int) s
 	}
 	// Any further argument checking gets tricky as optinal could be keywords
 	// depending on then method's forms.
+	if gen := slip.ClassGeneration(); gen != aux.classGen {
+		// A class was defined or redefined so cached effective methods,
+		// which are keyed by class name, may be stale.
+		aux.classGen = gen
+		if 0 < len(aux.cache) {
+			aux.cache = map[string]*slip.Method{}
+		}
+	}
 	key := buildSpecKey(args[:aux.reqCnt])
 	meth := aux.cache[key]
 	if meth == nil {
